@@ -923,15 +923,54 @@ func (ra *resAnalysis) definitelyPooled(v ssa.Value, f *ssa.Function, d int) boo
 		// X.Validate(...) where X = ctor(..., opts...) and the function sets the recycling option unconditionally
 		if _, m := recvOf(x); m == "Validate" {
 			recycles := false
-			core.EachInstr(f, func(i ssa.Instruction) {
-				if c, ok := i.(*ssa.Call); ok {
-					if g := core.StaticCallee(c); g != nil && core.BaseName(g) == "withRecycleResults" && len(c.Call.Args) == 1 {
-						if k, ok := c.Call.Args[0].(*ssa.Const); ok && k.Value != nil && k.Value.ExactString() == "true" {
-							recycles = true
+			// the switch set to constant true in fn, on every path to `before` (nil: to every return of fn)
+			setsIn := func(fn *ssa.Function, before ssa.Instruction) bool {
+				found := false
+				core.EachInstr(fn, func(i ssa.Instruction) {
+					c, ok := i.(*ssa.Call)
+					if !ok {
+						return
+					}
+					g := core.StaticCallee(c)
+					if g == nil || core.BaseName(g) != "withRecycleResults" || len(c.Call.Args) != 1 {
+						return
+					}
+					if k, ok := c.Call.Args[0].(*ssa.Const); !ok || k.Value == nil || k.Value.ExactString() != "true" {
+						return
+					}
+					if before != nil {
+						if core.InstrDominates(c, before) {
+							found = true
+						}
+						return
+					}
+					all := true
+					for _, b := range fn.Blocks {
+						if _, isRet := b.Instrs[len(b.Instrs)-1].(*ssa.Return); isRet && !c.Block().Dominates(b) {
+							all = false
+						}
+					}
+					if all {
+						found = true
+					}
+				})
+				return found
+			}
+			if setsIn(f, x) {
+				recycles = true
+			}
+			// or by the helper of the package that assembles the option list handed to the constructor of X
+			if ctor, ok := x.Call.Args[0].(*ssa.Call); ok && !recycles && len(x.Call.Args) > 0 {
+				for _, a := range ctor.Call.Args {
+					if hc, ok := a.(*ssa.Call); ok {
+						if h := core.StaticCallee(hc); h != nil && len(h.Blocks) > 0 && h.Pkg == f.Pkg && setsIn(h, nil) {
+							if _, isSlice := hc.Type().Underlying().(*types.Slice); isSlice {
+								recycles = true
+							}
 						}
 					}
 				}
-			})
+			}
 			return recycles
 		}
 	}
